@@ -439,7 +439,8 @@ class TemperatureServiceData(ServiceData):
     @property  # type: ignore[override]
     def data(self) -> float:
         """This attribute is a `float` value."""
-        return struct.unpack("<i", self._data[:3] + b"\0")[0] * 10**-2
+        sign = b"\xff" if self._data[2] & 0x80 else b"\0"  # 24-bit two's complement
+        return struct.unpack("<i", self._data[:3] + sign)[0] * 10**-2
 
     @data.setter
     def data(self, value: Union[float, bytes, bytearray]):
